@@ -713,13 +713,22 @@ class Compiler:
                 if len(st.body) != 1 or st.orelse or st.finalbody or len(st.handlers) != 1:
                     c.fail(st, "unsupported try statement")
                 h = st.handlers[0]
-                if not (isinstance(h.type, ast.Name) and h.type.id == "Exception" and h.body
-                        and isinstance(h.body[-1], ast.Raise) and h.body[-1].exc is None):
-                    c.fail(st, "handler is not `except Exception: ...; raise`")
+                if not (h.body and isinstance(h.body[-1], ast.Raise) and h.body[-1].exc is None):
+                    c.fail(st, "handler is not `except ...: ...; raise`")
+                if isinstance(h.type, ast.Name) and h.type.id in ("Exception", "BaseException"):
+                    catches = "anyException"
+                else:
+                    names = [e.id for e in h.type.elts] if isinstance(h.type, ast.Tuple) and all(
+                        isinstance(e, ast.Name) for e in h.type.elts) else (
+                        [h.type.id] if isinstance(h.type, ast.Name) else None)
+                    if not names or any(n not in EXC for n in names):
+                        c.fail(st, "unsupported exception classes in the except clause")
+                    catches = "(fun e => %s)" % " || ".join("decide (e = %s)" % EXC[n] for n in names)
                 hs = ""
                 for s in h.body[:-1]:
                     hs += "pyThen self (%s) fun self => " % self.store(c, s)
-                out.append("pyTryReraise self (%s) fun self =>\n    %spyDone self" % (self.store(c, st.body[0]), hs))
+                out.append("pyTryReraise self (%s) %s fun self =>\n    %spyDone self" % (
+                    self.store(c, st.body[0]), catches, hs))
                 return "\n  ".join(out)
             c.fail(st, "unsupported statement")
         # no try at the end: the last statement must have been a store
@@ -921,6 +930,25 @@ def extract(repo):
             fn = _fn(cls, name, kind)
         pinned.append(("%s.%s" % (cls.name, name), "(%s): " % ", ".join(a.arg for a in fn.args.args) +
                        "; ".join(_u(st) for st in _body(fn))))
+    # every method the three classes define: a new method (a second read or write path, an override in DataArray of
+    # something compiled from DataSet) changes these lists
+    def names(cls):
+        out = []
+        for n in cls.body:
+            if isinstance(n, ast.FunctionDef):
+                decs = [_u(x) for x in n.decorator_list]
+                out.append(n.name + (".setter" if any(x.endswith(".setter") for x in decs) else ""))
+        return out
+    ds_names, h5_names, da_names = names(k.ds), names(k.h5), names(k.da)
+    d("all methods of `DataSet` (source order)", "dataSetMethods : List String", _strs(ds_names))
+    d("all methods of `H5DataSet` (source order)", "h5DataSetMethods : List String", _strs(h5_names))
+    d("methods of `DataSet` that `DataArray` overrides", "dataArrayOverrides : List String",
+      _strs([n for n in ds_names if n in da_names]))
+    d("base classes of `DataArray`", "dataArrayBases : List String", _strs([_u(b) for b in k.da.bases]))
+    rel = "nixio/entity.py"
+    ent = _cls(_parse(repo, rel), "Entity", rel)
+    d("methods of `DataSet` that `Entity` (which precedes it in the MRO of `DataArray`) defines too",
+      "entityShadows : List String", _strs([n for n in ds_names if n in names(ent)]))
     d("methods of the read and creation paths that are modelled by hand, as normalised source text",
       "pinned : List (String × String)",
       "[\n    " + ",\n    ".join("(%s, %s)" % (lean_str(a), lean_str(b)) for a, b in pinned) + "]")
